@@ -450,9 +450,9 @@ impl Scenario for C08 {
         }
       }
     }
-    if w.live_tasks() > 0 {
-      bad("c08.task-left", format!("source terminated but {} task(s) are still alive", w.live_tasks()));
-    }
+    // a task that outlives its source's terminal is C16's / C19's business, not
+    // part of "emits exactly what and when it promises": counted, not judged
+    let task_left = (w.live_tasks() > 0) as u64;
     let st = &w.shared.stats;
     let multi = st.multi_ready_decisions.load(SeqCst);
     let jumps = st.clock_jumps_over_2.load(SeqCst);
@@ -479,7 +479,7 @@ impl Scenario for C08 {
       sim_ns: sim,
       steps: case.acts.len() as u64,
       faults: vec![("spurious_poll", spurious), ("clock_jump_past_a_deadline_by_a_period_or_more", overshoots), ("late_executor(scripted clock)", (!case.prompt) as u64)],
-      reach: vec![],
+      reach: vec![("info:task_alive_after_source_terminated", task_left)],
       resolved: None,
       sample,
     })
